@@ -25,7 +25,7 @@ print(p,f)")
     mkdir -p /tmp/rfv_$id; cp /verif/known_findings.txt /tmp/rfv_$id/
     FIRED=""
     for p in C01 C02 C03 C04 C05 C06 C07 C08 C09 C10 C11 C12 C13 C14 C15 C16 C17 C18 C19 C20; do
-      out=$(/verif/bin/stcheck -property $p -repo $SCR -verif /tmp/rfv_$id 2>&1 | grep '^FAIL' | awk '{print $2}' | sort -u | tr '\n' ' ')
+      out=$(${STCHECK:-/verif/bin/stcheck} -property $p -repo $SCR -verif /tmp/rfv_$id 2>&1 | grep '^FAIL' | awk '{print $2}' | sort -u | tr '\n' ' ')
       [ -n "$out" ] && FIRED="$FIRED $out"
     done
     rm -rf /tmp/rfv_$id
